@@ -216,6 +216,8 @@ class FilterWorld:
             "ekf",
         )
         self.old_fields = dict(self.ekf.fields)
+        # contents of the filter's own arrays (in-place updates through an alias keep the identity but change the term)
+        self.mat_snap = {nm: (m, m.term) for nm, m in (("calibration_vector", self.calibration_vector), ("process_noise", self.process_noise), ("sensor_noise", self.Q)) if isinstance(m, SMat)}
 
     # inputs built from the ghost environment -------------------------------------------------
     def state(self, tag="state"):
@@ -251,6 +253,8 @@ class FilterWorld:
             if f in except_:
                 continue
             P.oblige(f"{prefix}.frame.self.{f}", z3.BoolVal(self.ekf.fields.get(f) is v))
+        for nm, (m, t0) in getattr(self, "mat_snap", {}).items():
+            P.oblige(f"{prefix}.frame.self.{nm}_contents", z3.BoolVal(z3.eq(m.term, t0)), note=f"the filter's {nm} array was modified in place")
         new = sorted(set(self.ekf.fields) - set(self.old_fields) - set(except_))
         P.oblige(f"{prefix}.frame.self.no_new_attributes", z3.BoolVal(not new), note=f"the call stored new attributes on the filter: {new}")
 
@@ -298,6 +302,8 @@ class JacobianContract(Contract):
     ensures  never raises; result has shape (rows x cols) and, by name,
              result[r, s] = ev(diff(output r, variable s), E)   (E: the named inputs)
     frame    self.*, state, control unchanged."""
+
+    assignable = ()  # frame: attributes of self the method may write
 
     def __init__(self, which):
         self.which = which
@@ -363,6 +369,8 @@ class MakeReading(Contract):
     ensures  no keywords and data given: raises ValueError <=> data.shape != (m,1), else a Reading whose .data IS data;
              otherwise: Reading(**kwargs): TypeError <=> unknown reading name, else each supplied value in the slot of
              its reading name, zero elsewhere.  KeyError <=> key is not a sensor of the filter.  frame: nothing."""
+
+    assignable = ()  # frame: attributes of self the method may write
 
     key = "formak.python:ExtendedKalmanFilter.make_reading"
 
@@ -479,6 +487,8 @@ class ModelModel(Contract):
              symbol s holds ev(state_model[s], E) for the environment E of the named inputs (dt, state, frozen calibration,
              control; control None = zero control); frame: nothing."""
 
+    assignable = ()  # frame: attributes of self the method may write
+
     key = "formak.python:Model.model"
 
     def __init__(self, control_none=False):
@@ -536,6 +546,8 @@ class ModelModel(Contract):
 class SensorModelModel(Contract):
     """SensorModel.model(state_vector)
     ensures  a Reading whose slot i holds ev(sensor_model[readings[i]], E) (E: state by name + frozen calibration)."""
+
+    assignable = ()  # frame: attributes of self the method may write
 
     key = "formak.python:SensorModel.model"
     prefix = "C05.py.SensorModel.model"
@@ -630,6 +642,8 @@ class RemoveInnovation(Contract):
     ensures  the result is a scalar truth value, equal to
              (config.innovation_filtering is not None) and  nu^T S_inv nu  >  k*sqrt(2m) + m   (strictly);  frame: nothing."""
 
+    assignable = ()  # frame: attributes of self the method may write
+
     key = "formak.python:ExtendedKalmanFilter.remove_innovation"
 
     def __init__(self, enabled=True):
@@ -702,6 +716,8 @@ class ProcessModel(Contract):
              result.covariance.data = G P G^T + V M V^T  with G, V the process / control Jacobians at the input and M = self.process_noise;
     frame    state, covariance, control, self.* unchanged (=> repeating the call gives the identical result)."""
 
+    assignable = ()  # frame: attributes of self the method may write
+
     key = "formak.python:ExtendedKalmanFilter.process_model"
 
     def __init__(self, control_none=False):
@@ -759,6 +775,8 @@ class SensorUpdate(Contract):
              if remove_innovation(z - h(x), S^-1): returns the SAME state and covariance objects;
              else x+ = x + K (z - h(x)),  P+ = P - K H P  with K = P H^T S^-1;
     frame    only those two dict entries of self; inputs untouched."""
+
+    assignable = ('innovations', 'sensor_prediction_uncertainty')  # frame: attributes of self the method may write
 
     key = "formak.python:ExtendedKalmanFilter.sensor_model"
 
